@@ -27,7 +27,7 @@ are exercised on non-finite values; an exception is a refusal as in the other un
               wrapped and of the unwrapped trajectory: msd == 0, alpha2 = 0/0 for a condition selecting only them
   revisit     a later frame is an exact copy of frame 0 ([f0,f0] / [f0,f1,f0] / [f0,f0,f1]): msd == 0 at some lag for ALL
               particles (log-style displacement from frame 0, and the lag-2 entry of the linear average)
-  zerofield   the real scalar field is identically zero, the complex / vector / tensor fields are zero in frame 0 and for
+  zerofield   (S2 smoothing widths 0.15 x the usual: g_i(r) == 0 in some bins, S2 = NaN;) the real scalar field is identically zero, the complex / vector / tensor fields are zero in frame 0 and for
               particle 0, time steps are logarithmic for 3 frames: normalisations hit 0/0 and x/0
 Every world carries the condition masks mask_pin (the pinned set, all frames), mask_mob (its complement) and mask_gap (the
 ordinary mask with NO particle selected in one origin frame); in the non-degenerate worlds the "pinned set" moves like
@@ -451,6 +451,8 @@ class World:
         A["ngrids"] = np.array([3, 4] if d == 2 else [3, 2, 4], dtype=int)
         A["rcut_mat"] = self.Lmin * rng.uniform(0.3, 0.45, size=(KP, KP))
         A["s2sig"] = rng.uniform(0.1, 0.3, size=(KP, KP))
+        if variant == "zerofield":
+            A["s2sig"] *= 0.15  # narrow Gaussians: g_i(r) underflows to exactly 0 in some bins, S2 = 0 * log 0 = NaN
         diam = 0.9 + 0.2 * np.arange(KP)  # no table entry equal to 1.0: "normalise by the smallest" must not be the identity
         self.diameters = {k + 1: float(diam[k]) for k in range(KP)}
         self.masses = {k + 1: 0.8 + 0.5 * k for k in range(KP)}
